@@ -216,6 +216,10 @@ impl S3 for FileSystem {
             None => (file_len, None, 0),
             Some(range) => {
                 let file_range = range.check(file_len)?;
+                // a suffix of an empty object selects no bytes: no Content-Range can describe that (S3 answers 416)
+                if file_range.is_empty() {
+                    return Err(s3_error!(InvalidRange));
+                }
                 let content_length = file_range.end - file_range.start;
                 let content_range = fmt_content_range(file_range.start, file_range.end - 1, file_len);
                 (content_length, Some(content_range), file_range.start)
